@@ -291,6 +291,61 @@ def task_shrink(p, key, tier, seed):
     return part.d
 
 
+def spec_float_mag(p, key, e):
+    """Magnitude bounds of the specification's operands (see expr.evalmag)."""
+    ss, rs = p.s_state(), p.s_readings(key)
+    x = np.abs(np.array([e[s] for s in ss], dtype=float))
+    hm = np.array([X.evalmag(p.sensors[key][r], e) for r in rs])
+    Hm = np.array([[X.evalmag(X.diff(p.sensors[key][r], c), e) for c in ss] for r in rs]).reshape(len(rs), len(ss))
+    H = np.array([[X.evalf(X.diff(p.sensors[key][r], c), e) for c in ss] for r in rs]).reshape(len(rs), len(ss))
+    _, sn = pyh.noise_vals_from_env(p, e)
+    Qm = np.diag([abs(float(sn[key][r])) for r in rs])
+    P = pyh.float_cov(p.state, e)
+    Pa = np.abs(P)
+    zm = np.abs(np.array([e[f"z_{key}_{r}"] for r in rs], dtype=float))
+    Sm = Hm @ Pa @ Hm.T + Qm
+    S = H @ P @ H.T + np.diag([float(sn[key][r]) for r in rs])
+    Km = Pa @ Hm.T @ np.abs(np.linalg.inv(S))
+    im = zm + hm
+    return {"state": x + Km @ im, "cov": Pa + Km @ Hm @ Pa, "S": Sm, "innov": im}
+
+
+def task_regimes(p, cse, key, tier, seed):
+    """Concrete replays in value regimes (tiny covariance / noise, tiny states, huge states): see pyh.regime_envs."""
+    part = Part()
+    part.program(p.id)
+    part.fn("python.ExtendedKalmanFilter.sensor_model")
+    rng = random.Random(seed + 911)
+    for rnd in range(1 if tier == "quick" else 3):
+        for label, e in pyh.regime_envs(p, rng, readings_for=key):
+            kb = f"{p.id}/cse={int(cse)}/{key}/regime={label}"
+            info = {"program": p.id, "cse": cse, "sensor": key, "k": None, "kind": "regime", "regime": label}
+            try:
+                sp = spec_float(p, key, e)
+                mg = spec_float_mag(p, key, e)
+            except (ZeroDivisionError, ValueError, OverflowError, np.linalg.LinAlgError):
+                continue
+            if not all(np.all(np.isfinite(sp[nm])) and np.all(np.isfinite(mg[nm])) for nm in sp):
+                continue
+            if np.linalg.cond(sp["S"]) > 1e6:
+                continue  # the regimes are about scale, not conditioning: an ill-conditioned S is outside the replayed claim
+            try:
+                got = float_update(p, cse, key, e, None, warm=False)
+            except pyh.GateRejected:
+                continue
+            except Exception as ex:
+                path = write_replay(PID, {"key": kb, "info": info, "inputs": e, "exception": f"{type(ex).__name__}: {ex}"})
+                part.violation(kb, f"sensor_model raises {type(ex).__name__}: {ex} on a valid input in the {label} regime ({e})", path)
+                part.record(Q("sat", None, 0.0, ""), f"{kb}: update == specification relative to operand magnitude (concrete replay)")
+                continue
+            badc = [nm for nm in ("state", "cov", "S", "innov") if not pyh.mag_close(got[nm], sp[nm], mg[nm], rel=1e-8)]
+            part.record(Q("sat" if badc else "unsat", None, 0.0, ""), f"{kb}: update == specification relative to operand magnitude (concrete replay)")
+            if badc:
+                path = write_replay(PID, {"key": kb, "info": info, "inputs": e})
+                part.violation(kb, f"sensor_model differs from the Kalman correction in the {label} regime at {e}: {badc} (e.g. {badc[0]}: got {np.asarray(got[badc[0]]).tolist()} expected {np.asarray(sp[badc[0]]).tolist()})", path)
+    return part.d
+
+
 def programs_for(tier, seed):
     if tier == "quick":
         return [CP.P1(), CP.P3(), CP.P8(), CP.P12(), CP.P17(), CP.P22(), CP.P3().restrict(calibration=False)]
@@ -317,6 +372,9 @@ def run(tier, seed):
         for key in p.sensors:
             if len(p.sensors[key]) == 1:
                 tasks.append((task_shrink, (p, key, tier, seed)))
+    for p in ps:
+        for key in p.sensors:
+            tasks.append((task_regimes, (p, True, key, tier, seed)))
     for d in pmap(_dispatch, tasks):
         rep.merge(d)
     rep.bounds = {"programs": [p.id for p in ps], "readings_per_sensor": "1..3", "inputs": "all real states/readings/calibration, all symmetric P (witnesses: diagonally dominant P), all noise > 0; accept path of the innovation filter when k is set", "inverse": "shared cut-point: fresh symbols for S^-1, argument proved equal to S", "posterior<=prior": "direct nlsat proof for m = 1 sensors only; m >= 2 via the guided chain in C09"}
@@ -341,6 +399,19 @@ def replay(path):
     p = ps[info["program"]]
     e = r["inputs"]
     key = info["sensor"]
+    if info.get("kind") == "regime":
+        try:
+            got = float_update(p, info["cse"], key, e, None, warm=False)
+        except pyh.GateRejected as ex:
+            print("candidate rejected by validity gate:", ex)
+            return 0
+        except Exception as ex:
+            print(f"REPRODUCED: raises {type(ex).__name__}: {ex}")
+            return 1
+        sp, mg = spec_float(p, key, e), spec_float_mag(p, key, e)
+        badc = [nm for nm in ("state", "cov", "S", "innov") if not pyh.mag_close(got[nm], sp[nm], mg[nm], rel=1e-8)]
+        print("REPRODUCED" if badc else "not reproduced", badc)
+        return 1 if badc else 0
     try:
         got = float_update(p, info["cse"], key, e, info.get("k"))
     except pyh.GateRejected as ex:
